@@ -17,6 +17,8 @@ sentinel-filled mjData and the complete mjData is compared with a deep copy: onl
 """
 from __future__ import annotations
 
+import collections
+import concurrent.futures as cf
 import itertools
 import math
 import os
@@ -130,6 +132,7 @@ def pid_xml(cfg, var, prefix="none", second=None):
         inst, act = inst + i2, act + a2
     return """<mujoco>
   <option timestep="%r" gravity="0 0 0"/>
+  <size memory="64K"/>
   <extension><plugin plugin="mujoco.pid">%s</plugin></extension>
   <worldbody>
     <body><joint name="j0" type="slide" axis="0 0 1"/><geom size="0.1" mass="1"/></body>
@@ -156,6 +159,18 @@ class PidRef:
 
     def nslots(self):
         return (1 if self.c["ki"] else 0) + (1 if self.c["slew"] is not None else 0)
+
+    def load(self, act):
+        """take the controller state from an act vector laid out as documented."""
+        i = 0
+        if self.c["ki"]:
+            self.I = act[i]
+            i += 1
+        if self.c["slew"] is not None:
+            self.prev = act[i]
+            i += 1
+        if self.v["dyntype"] != "none":
+            self.a = act[i]
 
     def act_vector(self):
         out = []
@@ -259,45 +274,59 @@ def _pid_job(job):
     ref0 = PidRef(cfg, var)
     if len(ref0.act_vector()) != nslot or (npre_u != uadr) or (npre_o != oadr):
         raise RuntimeError("harness: unexpected layout %s uadr=%d oadr=%d nslot=%d" % (tag, uadr, oadr, nslot))
-    seen = set()
-    for seq in itertools.product(CTRL_ALPHABET, repeat=SEQ_LEN):
-        lib.mj_resetData(m, d)
-        d.qpos[jadr] = Q0
-        d.qvel[vadr] = V0
-        ref = PidRef(cfg, var)
-        for k, u in enumerate(seq):
+    ref = PidRef(cfg, var)
+    lib.mj_resetData(m, d)
+    d.qpos[jadr] = Q0
+    d.qvel[vadr] = V0
+
+    def save():
+        return float(d.time), np.array(d.qpos), np.array(d.qvel), np.array(d.act)
+
+    def restore(st):
+        d.time = st[0]
+        d.qpos[:] = st[1]
+        d.qvel[:] = st[2]
+        if m.na:
+            d.act[:] = st[3]
+
+    # breadth-first over the trie of control sequences: every prefix is executed exactly once
+    stack = collections.deque([((), save())])      # breadth-first: the first failing sequence is a shortest one
+    while stack:
+        seq0, st = stack.popleft()
+        for u in CTRL_ALPHABET:
+            seq = seq0 + (u,)
+            k = len(seq) - 1
+            restore(st)
             d.ctrl[:] = 0.77           # controls of the other actuators: a value outside the alphabet
             d.ctrl[uadr] = u
             length, velocity, time = float(d.qpos[jadr]), float(d.qvel[vadr]), float(d.time)
+            # the reference starts every step from the engine's controller state: a pure one-step oracle, so a
+            # divergence is reported at the step that causes it and the whole trie is explored regardless
+            ref.load([float(x) for x in d.act[aadr:aadr + nslot]])
             try:
                 lib.mj_step(m, d)
             except mj.MjError as e:
-                part.violation("pid: mju_error during mj_step", "%s seq=%s: %s" % (tag, seq[:k + 1], e), dict(xml=xml, seq=seq))
+                part.count(1)
+                part.violation("pid: mju_error during mj_step", "%s seq=%s: %s" % (tag, seq, e), dict(xml=xml, seq=seq))
                 d.free()
                 d = lib.make_data(m)
-                break
+                continue
             f_ref = ref.step(u, length, velocity, time)
-            new = seq[:k + 1] not in seen
-            if new:
-                seen.add(seq[:k + 1])
             f = float(d.actuator_force[oadr])
             act = [float(x) for x in d.act[aadr:aadr + nslot]] if nslot else []
             a_ref = ref.act_vector()
             bad_f = not (abs(f - f_ref) <= TOL * (1 + abs(f_ref)))
             bad_a = [i for i in range(nslot) if not (abs(act[i] - a_ref[i]) <= TOL * (1 + abs(a_ref[i])))]
-            if new:
-                nontriv = None
-                if ref.flags or f_ref != 0.0:
-                    nontriv = (tag, seq[:k + 1])
-                part.count(1, key=nontriv,
-                           sample=dict(config=tag, ctrl_sequence=seq[:k + 1], force=f, reference=f_ref, act=act,
-                                       limiters=sorted(ref.flags)) if (ref.flags and k == SEQ_LEN - 1) else None)
-                for fl in ref.flags:
-                    part.add("pid_steps_with_" + fl)
+            nontriv = (tag, seq) if (ref.flags or f_ref != 0.0) else None
+            part.count(1, key=nontriv,
+                       sample=dict(config=tag, ctrl_sequence=seq, force=f, reference=f_ref, act=act,
+                                   limiters=sorted(ref.flags)) if (len(ref.flags) > 1 and k == SEQ_LEN - 1 and cfg["kp"] and cfg["ki"] and cfg["kd"]) else None)
+            for fl in ref.flags:
+                part.add("pid_steps_with_" + fl)
             if bad_f or bad_a:
-                rep = dict(xml=xml, ctrl_sequence=list(seq[:k + 1]), qpos0=Q0, qvel0=V0, other_ctrl=0.77)
+                rep = dict(xml=xml, ctrl_sequence=list(seq), qpos0=Q0, qvel0=V0, other_ctrl=0.77)
                 what = ("%s, controls %s: step %d actuator_force=%.12g reference=%.12g; act=%s reference=%s"
-                        % (tag, list(seq[:k + 1]), k, f, f_ref, act, a_ref))
+                        % (tag, list(seq), k, f, f_ref, act, a_ref))
                 # canonical root causes
                 bad_own = [i for i in bad_a if i < ref.nslots()]      # plugin-owned act slots
                 key = "pid law: %s differs from the reference" % ("actuator_force" if bad_f else "act")
@@ -309,7 +338,9 @@ def _pid_job(job):
                     elif var["dyntype"] == "filterexact":
                         key = K_FILTEREXACT
                 part.violation(key, what, rep)
-                break       # later steps of this sequence inherit the divergence
+                part.add("pid_steps_violating")
+            if len(seq) < SEQ_LEN:
+                stack.append((seq, save()))
     d.free()
     m.free()
     return part
@@ -342,7 +373,12 @@ SECTIONS = {
     "box 4x10mm": ('type="box" size="0.05 .002 .005"', "box", (0.002, 0.005)),
     "box 6x6mm": ('type="box" size="0.05 .003 .003"', "box", (0.003, 0.003)),
 }
-CURVES = {"straight": "s", "arc": "cos(s) sin(s) 0", "helix": "cos(s) sin(s) s"}
+# curve name: (composite curve functions, composite size = (scale of s, radius, turns per unit s) for nseg segments)
+CURVES = {
+    "straight": ("s", lambda nseg: "%r" % (0.1 * nseg)),
+    "arc": ("cos(s) sin(s) 0", lambda nseg: "1 0.3 0.2"),
+    "helix": ("cos(s) sin(s) s", lambda nseg: "0.3 0.2 0.25"),
+}
 
 
 def rect_torsion_exact(hy, hz):
@@ -365,23 +401,47 @@ def section_stiffness(kind, dims):
     return G_TWIST * rect_torsion_exact(hy, hz), E_BEND * iy, E_BEND * iz
 
 
+def _hand_cable(prefix, nseg, section, initial, off):
+    """hand-written straight cable: the body tree a composite cable expands to (composite rejects count=3, see report)."""
+    kind, dims = SECTIONS[section][1], SECTIONS[section][2]
+    L = 0.1
+    if kind == "circle":
+        gtype = "capsule" if section.startswith("capsule") else "cylinder"
+        geom = '<geom type="%s" size="%r %r" pos="%r 0 0" quat="0.7071067811865476 0 0.7071067811865476 0"/>' % (
+            gtype, dims[0], L / 2, L / 2)
+    else:
+        geom = '<geom type="box" size="%r %r %r" pos="%r 0 0"/>' % (L / 2, dims[0], dims[1], L / 2)
+    xml = ""
+    for k in reversed(range(nseg)):
+        joint = '<joint type="ball" damping="0"/>'
+        if k == 0:
+            joint = {"none": "", "ball": joint, "free": '<freejoint/>'}[initial]
+        pos = off if k == 0 else "%r 0 0" % L
+        xml = '<body name="%sB%d" pos="%s">%s%s<plugin instance="%scable"/>%s</body>' % (prefix, k, pos, joint, geom, prefix, xml)
+    return xml
+
+
 def cable_xml(nseg, section, curve, initial, pose, flat=False, two=False):
     pos, quat = POSES[pose]
     geom = SECTIONS[section][0]
+    conf = '<config key="twist" value="%r"/><config key="bend" value="%r"/>%s' % (
+        G_TWIST, E_BEND, '<config key="flat" value="true"/>' if flat else "")
+    hand = nseg == 2 or curve == "hand"
+    ext = '<plugin plugin="mujoco.elasticity.cable">%s</plugin>' % (
+        "".join('<instance name="%scable">%s</instance>' % (p, conf) for p in (("A", "B") if two else ("A",))) if hand else "")
 
     def comp(prefix, off):
-        return """<composite prefix="%s" type="cable" curve="%s" count="%d 1 1" size="%r" offset="%s" initial="%s">
-      <plugin plugin="mujoco.elasticity.cable">
-        <config key="twist" value="%r"/><config key="bend" value="%r"/>%s
-      </plugin>
+        if hand:
+            return _hand_cable(prefix, nseg, section, initial, off)
+        return """<composite prefix="%s" type="cable" curve="%s" count="%d 1 1" size="%s" offset="%s" initial="%s">
+      <plugin plugin="mujoco.elasticity.cable">%s</plugin>
       <joint kind="main" damping="0"/>
       <geom %s rgba=".8 .2 .1 1"/>
-    </composite>""" % (prefix, CURVES[curve], nseg + 1, 0.1 * nseg, off, initial, G_TWIST, E_BEND,
-                       '<config key="flat" value="true"/>' if flat else "", geom)
+    </composite>""" % (prefix, CURVES[curve][0], nseg + 1, CURVES[curve][1](nseg), off, initial, conf, geom)
 
     posq = 'pos="%r %r %r" quat="%r %r %r %r"' % (pos + quat)
     if initial == "free":
-        # free root: the composite must be a child of the world; the pose goes into the free joint's qpos
+        # free root: the cable must be a child of the world; the pose goes into the free joint's qpos
         body = comp("A", "0 0 0") + (comp("B", "0 1 0") if two else "")
     else:
         body = '<body name="base" %s>%s</body>' % (posq, comp("A", "0 0 0"))
@@ -389,9 +449,10 @@ def cable_xml(nseg, section, curve, initial, pose, flat=False, two=False):
             body += '<body name="base2" pos="0 1 0">%s</body>' % comp("B", "0 0 0")
     return """<mujoco>
   <option gravity="0 0 -9.81"/>
-  <extension><plugin plugin="mujoco.elasticity.cable"/></extension>
+  <size memory="256K"/>
+  <extension>%s</extension>
   <worldbody>%s</worldbody>
-</mujoco>""" % body
+</mujoco>""" % (ext, body)
 
 
 def _quat_axis(axis, ang):
@@ -461,7 +522,7 @@ def _cable_job(job):
         if initial == "free":
             _set_free_pose(m, d, pose)
         q = passive()
-        stress_free = (not flat) or curve == "straight"
+        stress_free = (not flat) or curve in ("straight", "hand")
         part.count(1, key=(base_tag, pose, "rest") if stress_free else None,
                    sample=dict(case=base_tag, pose=pose, max_abs_qfrc_passive=float(np.max(np.abs(q))) if q.size else 0.0,
                                nv=int(m.nv)) if (pose == "offset+generic" and stress_free) else None)
@@ -477,7 +538,7 @@ def _cable_job(job):
                                "%s pose=%s: qfrc_passive is zero" % (base_tag, pose), dict(xml=xml, pose=pose))
         forces = [q]
         # ---- 2. beam law: single-axis rotation of one interior joint of a straight cable
-        if curve == "straight":
+        if curve in ("straight", "hand"):
             for (b, j) in interior:
                 qa, va = int(m.jnt_qposadr[j]), int(m.jnt_dofadr[j])
                 for axis in range(3):
@@ -632,38 +693,69 @@ def _iso_allowed(m, inst, cb, plugin_name):
     return ok
 
 
+def _iso_run(exe, xmls):
+    """run the driver on several models in one process; returns {index: stdout section or None if it did not finish}."""
+    tmp = tempfile.mkdtemp(prefix="verif_c51_")
+    paths = []
+    for i, x in enumerate(xmls):
+        p = os.path.join(tmp, "m%d.xml" % i)
+        with open(p, "w") as fh:
+            fh.write(x)
+        paths.append(p)
+    r = subprocess.run([exe] + paths, capture_output=True, text=True, env=rx.env(False))
+    for p in paths:
+        os.unlink(p)
+    os.rmdir(tmp)
+    out = {}
+    cur, buf = None, []
+    for line in r.stdout.splitlines():
+        f = line.split()
+        if f and f[0] == "MODEL":
+            cur, buf = int(f[1]), []
+        elif f and f[0] == "DONE" and cur is not None:
+            out[cur] = buf
+            cur = None
+        elif cur is not None:
+            buf.append(line)
+    return out, r
+
+
 def _iso_job(job):
-    name, xml, prefix, exe = job
+    """job: (exe, [(name, xml, prefix), ...]) evaluated in one driver process (one process per scenario after a crash)."""
+    exe, scen = job
     part = core.Part()
     lib = mj.load("rel")
-    tmp = tempfile.mkdtemp(prefix="verif_c51_")
-    path = os.path.join(tmp, "m.xml")
-    with open(path, "w") as fh:
-        fh.write(xml)
-    r = subprocess.run([exe, path], capture_output=True, text=True, env=rx.env(True))
-    os.unlink(path)
-    os.rmdir(tmp)
+    out, r = _iso_run(exe, [x for _, x, _ in scen])
+    for i, (name, xml, prefix) in enumerate(scen):
+        lines, rr = out.get(i), r
+        if lines is None and len(scen) > 1:
+            o1, rr = _iso_run(exe, [xml])
+            lines = o1.get(0)
+        _iso_eval(part, lib, name, xml, prefix, lines, rr)
+    return part
+
+
+def _iso_eval(part, lib, name, xml, prefix, lines, r):
     addr_model = prefix not in ("none", "motor")
     rep = dict(scenario=name, xml=xml)
-    if r.returncode != 0 or "DONE" not in r.stdout:
-        fn = ""
-        mm = re.search(r"#\d+ 0x[0-9a-f]+ in ([\w:~<>]+)", r.stderr)
+    if lines is None:
         summ = re.search(r"SUMMARY: (.*)", r.stderr)
-        what = "isolation driver died rc=%d on '%s': %s %s" % (r.returncode, name, summ.group(1)[:200] if summ else "",
-                                                              r.stderr[-400:] if not summ else "")
+        kind = re.search(r"ERROR: AddressSanitizer: ([\w-]+)", r.stderr)
+        what = "isolation driver died rc=%d on '%s': %s %s" % (
+            r.returncode, name, kind.group(1) if kind else "", (summ.group(1)[:200] if summ else r.stderr[-300:]))
         part.count(1, key=("crash", name))
         part.violation(K_ADDR if addr_model else "plugin callback: sanitizer report / crash", what, rep)
-        return part
+        return
     try:
         m = lib.load_xml(xml)
     except mj.MjError as e:
         part.count(1)
         part.violation(K_ADDR if addr_model else "isolation: model rejected", "%s: %s" % (name, e), rep)
-        return part
+        return
     names = {}
     calls = []
     changes = {}
-    for line in r.stdout.splitlines():
+    for line in lines:
         f = line.split()
         if not f:
             continue
@@ -673,11 +765,12 @@ def _iso_job(job):
             calls.append((int(f[1]), f[2]))
             changes[(int(f[1]), f[2])] = []
         elif f[0] == "CHG":
-            changes[(int(f[1]), f[2])].append((f[3], int(f[4])))
+            if f[3] != "plugin_data":       # the deep copy owns distinct plugin objects (pointer values differ)
+                changes[(int(f[1]), f[2])].append((f[3], int(f[4])))
         elif f[0] == "ERR":
             part.violation(K_ADDR if addr_model else "plugin callback raised mju_error", "%s: %s" % (name, line), rep)
     if len(names) < 2:
-        raise RuntimeError("harness: isolation scenario %s has < 2 plugin instances" % name)
+        raise RuntimeError("harness: isolation scenario %s has < 2 plugin instances: %r" % (name, lines[:5]))
     for (inst, cb) in calls:
         allowed = _iso_allowed(m, inst, cb, names[inst])
         ch = changes[(inst, cb)]
@@ -698,7 +791,6 @@ def _iso_job(job):
                 part.violation("isolation: pid compute leaves its own force slot unwritten",
                                "%s: instance %d did not write %s" % (name, inst, missing), rep)
     m.free()
-    return part
 
 
 def _iso_chunk(chunk):
@@ -749,7 +841,19 @@ def registered_plugins(lib):
     return out
 
 
+def _serial(ctx, fn, jobs, size=48):
+    """The lattices cost a few CPU seconds in total: evaluated in-process (a forked pool costs more than it saves here).
+    The seed only rotates the order of the slices."""
+    slices = [jobs[i:i + size] for i in range(0, len(jobs), size)]
+    r = ctx.seed % len(slices)
+    for sl in slices[r:] + slices[:r]:
+        ctx.merge(fn(sl))
+
+
 def run(ctx):
+    global SEQ_LEN, ANGLES
+    SEQ_LEN = ctx.q(4, 6)                 # evaluated in-process (_serial), so the module globals are the bound
+    ANGLES = ctx.q((0.1, -0.4, 1.2), (0.01, 0.1, -0.4, 1.2, -2.0, 3.0))
     lib = mj.load("rel")
     plugs = registered_plugins(lib)
     ctx.extra["registered_plugins"] = plugs
@@ -769,27 +873,33 @@ def run(ctx):
             continue
         jobs += [(c, v, prefix) for c in cfgs for v in front]
     ctx.extra["pid_models"] = len(jobs)
-    core.pmap(ctx, _pid_chunk, jobs)
+    _serial(ctx, _pid_chunk, jobs)
     _readme_units(ctx, lib)
 
     # ---- cable lattice
     cjobs = []
     for nseg in (2, 3, 4):
         for section in SECTIONS:
-            for curve in CURVES:
+            for curve in list(CURVES) + ["hand"]:
+                if (nseg == 2) != (curve == "hand") and not (nseg == 3 and curve == "hand"):
+                    continue          # 2 segments: hand-written bodies only (+ one hand-written 3-segment cross-check)
                 for initial in ("none", "ball", "free"):
                     for flat in (False, True):
-                        if flat and curve == "straight":
+                        if flat and curve in ("straight", "hand"):
                             continue
                         cjobs.append((nseg, section, curve, initial, flat))
     ctx.extra["cable_models"] = len(cjobs) * len(POSES)
-    core.pmap(ctx, _cable_chunk, cjobs)
+    _serial(ctx, _cable_chunk, cjobs)
 
     # ---- isolation
     exe = build.ensure_exe("c51_iso", ["drivers/c51_iso.cc"], variant="asan")
-    ijobs = [(n, x, p, exe) for n, x, p in iso_scenarios()]
-    ctx.extra["isolation_scenarios"] = len(ijobs)
-    core.pmap(ctx, _iso_chunk, ijobs, nchunks=len(ijobs))
+    scen = iso_scenarios()
+    plain = [s for s in scen if s[2] in ("none", "motor")]
+    ijobs = [(exe, plain)] + [(exe, [s]) for s in scen if s[2] not in ("none", "motor")]
+    ctx.extra["isolation_scenarios"] = len(scen)
+    with cf.ThreadPoolExecutor(max_workers=len(ijobs)) as ex:      # one sanitizer-build driver process per job
+        for part in ex.map(_iso_chunk, [[j] for j in ijobs]):
+            ctx.merge(part)
 
     nseq = sum(len(CTRL_ALPHABET) ** k for k in range(1, SEQ_LEN + 1))
     ctx.rule = (
@@ -802,11 +912,11 @@ def run(ctx):
         "non-trivial = a limiter (I clip, slew, ctrl clamp, act clamp) is active or the force is non-zero.  "
         "Cable: segments {2,3,4} x cross-section {capsule, cylinder, box 4x10, box 6x6} x shape {straight, arc, helix} x root "
         "{welded, ball, free} x flat{false,true} x 3 rigid poses: rest configuration (zero force unless flat on a curved "
-        "cable), every interior joint x axis{x,y,z} x angle{0.1,-0.4,1.2} on straight cables (moment = K*angle/L), a generic "
+        "cable), every interior joint x axis{x,y,z} x angle%s on straight cables (moment = K*angle/L), a generic "
         "bent configuration; forces compared across poses.  Isolation: %d scenarios with >= 2 plugin instances, every "
         "callback (act_dot, compute, advance) of every instance invoked alone on sentinel-filled actuator_force / act_dot / "
         "qfrc_passive / qfrc_actuator / plugin_state / sensordata and all of mjData diffed against a deep copy."
-        % (len(cfgs), len(variants), nseq, SEQ_LEN, DT, Q0, V0, len(cfgs), len(PREFIXES) - 1, len(ijobs)))
+        % (len(cfgs), len(variants), nseq, SEQ_LEN, DT, Q0, V0, len(cfgs), len(PREFIXES) - 1, ANGLES, len(scen)))
     ctx.assumptions = [
         "README is silent on discretisation: integral includes the current error (backward rectangle), set-point rate is the "
         "act_dot of the dyntype state (0 for direct control), the first step after time 0 is not slew-limited, controller "
